@@ -218,7 +218,7 @@ PROPS["C10"] = {
     "level_text": "Proved in Lean: ApplyPatches is the left fold of the per-action step with first-failure abort; add-keys/add-services = upsert-by-id spec (existing order kept, replaced in place, "
                   "new entries appended), remove = filter by id (unknown ids ignored), also-known-as = ordered union / difference, replace = exactly the given keys and services; unique ids are "
                   "preserved by every validated non-ietf patch and by ietf patches (via C11). The ietf action is modelled twice - the pinned library as it behaves (validated against the "
-                  "implementation on every case) and RFC 6902 as written - and the check reports every operation where the two part ways.",
+                  "implementation on every case) and RFC 6902 as written - and the check reports every operation where the two part ways. wellformed_invariant: every validated patch keeps publicKey and service lists of objects and nothing else (no entry a later patch would skip).",
     "level_note": "Trusted: Lean kernel; extractor; harness. KNOWN FINDINGS: evanphx/json-patch v4.1.0 deviates from RFC 6902 (replace/copy/move/test accept what the RFC refuses; move/copy to an "
                   "existing array index overwrite instead of inserting); no newer library is available offline. Go map iteration order is abstracted (documents compared as values).",
 }
